@@ -911,6 +911,10 @@ class Exec(object):
         if isinstance(base, VMap):
             self.safety(st, node, base.has(idx).t, "KeyError", "key_present")
             return base.get(idx)
+        if isinstance(base, VDict):
+            k = tostr(lift(idx))
+            self.safety(st, node, tobool(base.has(k)), "KeyError", "key_present")
+            return base.val(k)
         if isinstance(base, VRec) and base.cls == "params":
             if not isinstance(idx, str) or idx not in base.fields["has"]:
                 raise Unsupported("params[%r] not declared in the contract" % (idx,))
@@ -1130,6 +1134,8 @@ class Exec(object):
             return st.heap.has(cont[1], x)
         if isinstance(cont, VMap):
             return cont.has(x)
+        if isinstance(cont, VDict):
+            return cont.has(tostr(lift(x)))
         if isinstance(cont, VRec) and cont.cls == "params":
             if not isinstance(x, str):
                 # e.g. `gf_separator in params` with a symbolic/constant string value
